@@ -12,7 +12,7 @@ from common import Ctx, InfraError
 MODULES = {f"C{i:02d}": [f"TjdProps.C{i:02d}"] for i in range(1, 21)}
 MODULES["C01"].append("TjdProps.C01Example")
 MODULES["C03"] += ["TjdProps.C03Example", "TjdProps.C03b", "TjdProps.C03c"]
-MODULES["C04"].append("TjdProps.C03b")
+MODULES["C04"] += ["TjdProps.C03b", "TjdProps.C04b"]
 MODULES["C15"].append("TjdProps.C15b")
 MODULES["C10"].append("TjdProps.C10b")
 MODULES["C09"].append("TjdProps.C09b")
